@@ -90,6 +90,8 @@ pub struct Finding {
     pub sql: String,
     pub expected: String,
     pub got: String,
+    /// structured rows for Rows / Order findings (reference, implementation)
+    pub rows: Option<(Vec<Vec<V>>, Vec<Vec<V>>)>,
 }
 
 #[derive(Default, Debug)]
@@ -187,6 +189,7 @@ pub fn check_program(db: &Db, prog: &Program, insts: &[Inst]) -> Outcome {
                         sql: String::new(),
                         expected: "the program is well-scoped: compiles".into(),
                         got: m,
+                        rows: None,
                     });
                 }
                 seen_fail = true;
@@ -201,6 +204,7 @@ pub fn check_program(db: &Db, prog: &Program, insts: &[Inst]) -> Outcome {
                         sql: String::new(),
                         expected: "no panic".into(),
                         got: p.site,
+                        rows: None,
                     });
                 }
                 seen_fail = true;
@@ -234,6 +238,7 @@ pub fn check_program(db: &Db, prog: &Program, insts: &[Inst]) -> Outcome {
                     sql: sql.clone(),
                     expected: "statement prepares".into(),
                     got: e,
+                    rows: None,
                 });
                 continue;
             }
@@ -248,6 +253,7 @@ pub fn check_program(db: &Db, prog: &Program, insts: &[Inst]) -> Outcome {
                 sql: sql.clone(),
                 expected: serde_json::to_string(&final_frame.cols.iter().map(|c| c.name.clone()).collect::<Vec<_>>()).unwrap(),
                 got: serde_json::to_string(&names).unwrap(),
+                rows: None,
             });
         } else {
             for (k, c) in final_frame.cols.iter().enumerate() {
@@ -261,6 +267,7 @@ pub fn check_program(db: &Db, prog: &Program, insts: &[Inst]) -> Outcome {
                             sql: sql.clone(),
                             expected: serde_json::to_string(&final_frame.cols.iter().map(|c| c.name.clone()).collect::<Vec<_>>()).unwrap(),
                             got: serde_json::to_string(&names).unwrap(),
+                            rows: None,
                         });
                         break;
                     }
@@ -293,6 +300,7 @@ pub fn check_program(db: &Db, prog: &Program, insts: &[Inst]) -> Outcome {
                             sql: sql.clone(),
                             expected: "statement executes".into(),
                             got: e,
+                            rows: None,
                         });
                         rows_reported = true;
                     }
@@ -313,6 +321,7 @@ pub fn check_program(db: &Db, prog: &Program, insts: &[Inst]) -> Outcome {
                         sql: sql.clone(),
                         expected: show_rows(&ref_rows),
                         got: show_rows(&got),
+                        rows: Some((ref_rows.clone(), got.clone())),
                     });
                 }
                 continue;
@@ -334,6 +343,7 @@ pub fn check_program(db: &Db, prog: &Program, insts: &[Inst]) -> Outcome {
                             desc
                         ),
                         got: show_rows(&got),
+                        rows: None,
                     });
                 }
             }
